@@ -8,22 +8,24 @@ namespace MitmVerif.C03
 -- ------------------------------------------------------------------------------------------------
 -- assembling
 
-theorem pausedOK_aux (c : Core) (k : K) (e : ErrK) (l : Bool) : pausedOK { c with err := e, live := l } k = pausedOK c k := by
-  cases k <;> (try rename_i b; cases b) <;> rfl
+/-- the invariant does not mention `err`, and mentions `live` only as a premise -/
+theorem inv_err_live (c : Core) (e : ErrK) (l : Bool) (hl : l = true → c.live = true) (hI : InvB c = true) :
+    InvB { c with err := e, live := l } = true := by
+  by_cases hb : c.bad = true
+  · simp [InvB, hb]
+  · have hb' : c.bad = false := by simpa using hb
+    unfold InvB at hI ⊢
+    simp only [hb', Bool.false_or] at hI ⊢
+    cases l
+    · cases hk : c.paused <;> simp_all [imp]
+    · have hl' := hl rfl
+      simp only [hl'] at hI
+      exact hI
 
 theorem inv_applyAction (c : Core) (h : Hook) (a : Action) (hI : InvB c = true) : InvB (applyAction c h a) = true := by
   cases a
   · exact hI
-  · cases hk : c.paused with
-    | none =>
-      simp [InvB, imp, applyAction, hk, isRespHookK, isErrHookK, isRespSideK] at hI ⊢
-      grind
-    | some k =>
-      have hp := pausedOK_aux c k (if (c.live && c.err != ErrK.killed) = true then ErrK.killed else c.err) (c.live && c.err == ErrK.killed)
-      simp only [InvB, imp, applyAction, hk] at hI ⊢
-      simp only [hp]
-      simp at hI ⊢
-      grind
+  · exact inv_err_live c _ _ (by simp; intro h _; exact h) hI
   · simpa [InvB, imp, applyAction] using hI
   · simpa [InvB, imp, applyAction] using hI
 
@@ -37,13 +39,16 @@ theorem applyAction_bad (c : Core) (h : Hook) (a : Action) : (applyAction c h a)
 theorem restore_paused (c : Core) (k : K) (hk : c.paused = some k) : { c with paused := some k, draining := c.draining } = c := by
   cases c; simp at hk; subst hk; rfl
 
+theorem restore_seen (c : Core) (hs : c.seenReqHdr = false) : { c with seenReqHdr := false, draining := c.draining } = c := by
+  cases c; simp at hs; subst hs; rfl
+
 /-- every completion preserves the invariant -/
 theorem inv_procDone (c : Core) (ev : AEv) (p : Bool) (h : InvB c = true) : InvB (procDone c ev p).c = true := by
   unfold procDone
   by_cases hb : c.bad = true
   · simp [hb, h]
   · have hb' : c.bad = false := by simpa using hb
-    simp only [hb', Bool.false_eq_true, ↓reduceIte]
+    rw [if_neg hb]
     cases hk : c.paused with
     | none => simp [inv_bad]
     | some k =>
@@ -57,7 +62,7 @@ theorem inv_procDone (c : Core) (ev : AEv) (p : Bool) (h : InvB c = true) : InvB
         intro hh a ok
         refine inv_resume _ k ok p c.draining ?_ (by rw [applyAction_paused]) (by rw [applyAction_bad]; exact hb')
         rw [applyAction_comm]
-        have : ({ c with paused := none, draining := true, paused := some k, draining := c.draining } : Core) = c := restore_paused c k hk
+        have := restore_paused c k hk
         simp only at this ⊢
         rw [this]
         exact inv_applyAction c hh a h
@@ -80,13 +85,13 @@ theorem inv_procEv (c : Core) (ev : AEv) (p q : Bool) (h : InvB c = true) (hp : 
   by_cases hb : c.bad = true
   · simp [hb, h]
   · have hb' : c.bad = false := by simpa using hb
-    simp only [hb', Bool.false_eq_true, ↓reduceIte]
+    rw [if_neg hb]
     by_cases hpt : c.pt = true
     · simp [hpt, h]
     · have hpt' : c.pt = false := by simpa using hpt
-      simp only [hpt', Bool.false_eq_true, ↓reduceIte]
+      rw [if_neg hpt]
       by_cases hg : grammarOk c ev = true
-      · simp only [hg, Bool.not_true, Bool.false_eq_true, ↓reduceIte]
+      · rw [if_neg (by simp [hg])]
         have hq : (q && c.draining) = true → c.draining = true := by simp
         cases ev with
         | reqErr =>
@@ -96,10 +101,8 @@ theorem inv_procEv (c : Core) (ev : AEv) (p q : Bool) (h : InvB c = true) (hp : 
         | reqHeaders e k ws v =>
           have hg' : c.seenReqHdr = false ∧ (c.stale = true ∨ c.procReqErr = false) := by simpa [grammarOk] using hg
           refine inv_reqHeaders _ e k ws v _ c.draining ?_ hp hb' hpt' rfl hg'.2 rfl hq
-          have : ({ c with draining := q && c.draining, seenReqHdr := true, seenReqHdr := false, draining := c.draining } : Core) = c := by
-            cases c; simp at hg'; simp [hg'.1]
-          simp only at this ⊢
-          rw [this]; exact h
+          show InvB { c with seenReqHdr := false, draining := c.draining } = true
+          rw [restore_seen c hg'.1]; exact h
         | reqData v =>
           exact inv_reqBody _ _ (Or.inl ⟨v, rfl⟩) _ c.draining (by simpa using h) hp hb' hpt' (by simpa [grammarOk] using hg) rfl hq
         | reqEOM ne =>
